@@ -21,7 +21,8 @@ from harness.props import c01
 LEAN_MODULES = ['Pycdlib.Props.C14']
 THEOREMS = ['Pycdlib.Atomic.refused_unchanged', 'Pycdlib.Atomic.checked_agrees', 'Pycdlib.Atomic.parts_indep',
             'Pycdlib.Atomic.step_refused_unchanged', 'Pycdlib.Atomic.step_agrees', 'Pycdlib.Atomic.run_skips_refused',
-            'Pycdlib.Atomic.partial_witness', 'Pycdlib.Atomic.add_wf', 'Pycdlib.Atomic.rmdir_wf']
+            'Pycdlib.Atomic.partial_witness', 'Pycdlib.Atomic.add_wf', 'Pycdlib.Atomic.rmdir_wf',
+            'Pycdlib.Atomic.step_preserves_wf', 'Pycdlib.Atomic.run_preserves_wf']
 PARTIAL = {
     'refused_unchanged_partial': 'proved for every edit run as "check every namespace part, then apply them" (Atomic.checked), for any '
     'state, preconditions and effects; the three-namespace add/rmdir instance is tied to the library by the refusal correspondence '
